@@ -60,9 +60,9 @@ func c11Model_cborDecode(d *cbor.Decoder, v interface{}) error {
 // the accessors the server uses (Has*/Get*): "has a value" or not; null and omitted are not
 // distinguished at that level (the fast decoder stores both as a nil pointer).
 
-func c11PInt(i int) *c11Val       { return &c11Val{kind: 'i', u: uint64(i)} }
-func c11PBytes(b []byte) *c11Val  { return &c11Val{kind: 'b', b: b} }
-func c11PNone() *c11Val           { return &c11Val{state: c11Null} }
+func c11PInt(i int) *c11Val                   { return &c11Val{kind: 'i', u: uint64(i)} }
+func c11PBytes(b []byte) *c11Val              { return &c11Val{kind: 'b', b: b} }
+func c11PNone() *c11Val                       { return &c11Val{state: c11Null} }
 func c11PS(name string, f ...*c11Val) *c11Val { return &c11Val{kind: 's', typ: name, elems: f} }
 
 func c11PLink(l datamodel.Link) *c11Val {
@@ -465,6 +465,11 @@ func VerifC11Mistag() {
 	t := Kind(verifParam("T", int(KindEpoch)))
 	label := "C11.mistag." + strings.ToLower(t.String())
 	t, _, g, v := c11Setup(label)
+	// Property C11 speaks about schema-conforming nodes: the kind fields of the node are the ones
+	// of its shape. (Tuples whose kind field lies about their shape are malformed input; the fast
+	// Epoch/Subset decoders are more lenient than the schema-driven decoder on those — surplus
+	// elements ignored, null accepted for the required link list — which is outside C11.)
+	verifAssume(g.kindMiss == 0)
 	raw := c11Raw
 	tuple := c11ToAny(v).([]interface{})
 	k := Kind(verifChoice("decoder", int(KindDataFrame)+1))
